@@ -528,7 +528,19 @@ func runCase(c caseT, clk *vclock.Clock) []obsT {
 			if o.Inbound {
 				tt = base.Inbound
 			}
-			e, b := sentinel.Entry(resName(c.ID, o.Inbound, o.Res), sentinel.WithTrafficType(tt), sentinel.WithBatchCount(o.Batch), sentinel.WithResourceType(resTypeOf(opi, o.Res)))
+			// calls that rely on DEFAULT option values (the options object is pooled and was last used with other
+			// values): an outbound call states no traffic type, a batch of 1 no batch count, a common resource no type
+			var opts []sentinel.EntryOption
+			if o.Inbound || opi%2 == 1 {
+				opts = append(opts, sentinel.WithTrafficType(tt))
+			}
+			if o.Batch != 1 || opi%4 >= 2 {
+				opts = append(opts, sentinel.WithBatchCount(o.Batch))
+			}
+			if rt := resTypeOf(opi, o.Res); rt != base.ResTypeCommon || opi%5 == 0 {
+				opts = append(opts, sentinel.WithResourceType(rt))
+			}
+			e, b := sentinel.Entry(resName(c.ID, o.Inbound, o.Res), opts...)
 			if b != nil {
 				entries = append(entries, nil)
 				ob := obsT{Kind: "block", BType: int(b.BlockType()), Tag: -1, Snap: F(math.NaN()), T: t}
@@ -848,7 +860,13 @@ func stressRound(round int, clk *vclock.Clock, rep *emit.Report) bool {
 				if (g+i)%4 == 0 {
 					tt = base.Outbound
 				}
-				e, b := sentinel.Entry("c07-"+strconv.Itoa(id)+"-r"+strconv.Itoa(i%3), sentinel.WithTrafficType(tt))
+				var e *base.SentinelEntry
+				var b *base.BlockError
+				if tt == base.Outbound && i%2 == 0 {
+					e, b = sentinel.Entry("c07-" + strconv.Itoa(id) + "-r" + strconv.Itoa(i%3)) // outbound by default
+				} else {
+					e, b = sentinel.Entry("c07-"+strconv.Itoa(id)+"-r"+strconv.Itoa(i%3), sentinel.WithTrafficType(tt))
+				}
 				if b != nil {
 					atomic.AddInt64(&blocked, 1)
 					continue
